@@ -708,7 +708,7 @@ def compare_images(sc, itr, mtr):
     addr2conn = {}
     snaps = {}
     for sn in itr.log.snaps:
-        if 0 <= sn["step"] < len(itr.smap):
+        if 0 <= sn["step"] < len(itr.smap) and sn.get("internals", True):
             snaps[itr.smap[sn["step"]]] = sn
     for si in range(len(sc.steps)):
         for c, addr in itr.peers[si]:
